@@ -126,7 +126,7 @@ func init() {
 			"out-of-range system-common arguments only need a well-formed message (statement)",
 			"loopback is observed through drivers/testdrv + midi.ListenTo with all listen options enabled",
 		},
-		Require: []string{"ctor_points", "loopback_deliveries", "accessor_calls", "out_of_range_points", "concurrent_ctor_points", "nil_pattern_calls"},
+		Require: []string{"ctor_points", "loopback_deliveries", "accessor_calls", "out_of_range_points", "concurrent_ctor_points", "nil_pattern_calls", "conversations_with_replies_to_replies"},
 		Run:     runC07,
 	})
 }
@@ -502,6 +502,120 @@ func runC07(c *mon.Ctx) {
 		if bad > 0 {
 			c.Violation("ctor-concurrent", fmt.Sprintf("%d of %d messages constructed concurrently by 8 goroutines had the wrong encoding; first: %v", bad, 8*128*128, firstBad.Load()), nil, nil, firstBad.Load())
 		}
+	})
+
+	// conversations over the loopback: the listener callback itself sends replies (and replies to replies,
+	// up to four levels deep) through the same loopback port; every message sent must arrive with its value
+	c.Each("conversation", c.N(300, 20_000), func(i int64, r *mon.Rand) {
+		drv := testdrv.New("c07conv")
+		ins, _ := drv.Ins()
+		outs, _ := drv.Outs()
+		mk := func(id int) midi.Message {
+			switch id % 3 {
+			case 0:
+				return midi.NoteOn(uint8(id%16), uint8(id/16%128), uint8(1+id/2048%127))
+			case 1:
+				return midi.ControlChange(uint8(id%16), uint8(id/16%120), uint8(id/2048%128))
+			}
+			return midi.Pitchbend(uint8(id%16), int16(id/16%8192))
+		}
+		// the script: node id -> ids of the replies its arrival triggers
+		children := map[int][]int{}
+		depth := map[int]int{}
+		next := 0
+		var roots []int
+		nroots := r.Range(1, 4)
+		for k := 0; k < nroots; k++ {
+			roots = append(roots, next)
+			depth[next] = 0
+			next++
+		}
+		maxDepth := 0
+		for id := 0; id < next && next < 120; id++ {
+			if depth[id] >= 4 {
+				continue
+			}
+			nrep := r.Pick(0, 1, 1, 2, 3)
+			if depth[id] == 0 && nrep == 0 {
+				nrep = 1
+			}
+			for k := 0; k < nrep; k++ {
+				children[id] = append(children[id], next)
+				depth[next] = depth[id] + 1
+				if depth[next] > maxDepth {
+					maxDepth = depth[next]
+				}
+				next++
+			}
+		}
+		byBytes := map[string]int{}
+		for id := 0; id < next; id++ {
+			byBytes[string(mk(id))] = id
+		}
+		if len(byBytes) != next {
+			c.Inconclusive("harness error: conversation messages are not distinct")
+			return
+		}
+		var snd func(midi.Message) error
+		arrived := map[int]int{}
+		var unknown [][]byte
+		var sendErr error
+		in := map[string]any{"messages": next, "roots": nroots, "max_reply_depth": maxDepth, "replies_to": fmt.Sprint(children)}
+		stop, err := midi.ListenTo(ins[0], func(m midi.Message, ts int32) {
+			id, ok := byBytes[string(m)]
+			if !ok {
+				unknown = append(unknown, append([]byte(nil), m...))
+				return
+			}
+			arrived[id]++
+			if arrived[id] > 1 {
+				return
+			}
+			for _, ch := range children[id] {
+				if e := snd(mk(ch)); e != nil && sendErr == nil {
+					sendErr = e
+				}
+			}
+		})
+		if err != nil {
+			c.Violation("conversation-listen", "ListenTo fails: "+err.Error(), in, nil, nil)
+			return
+		}
+		snd, err = midi.SendTo(outs[0])
+		if err != nil {
+			c.Violation("conversation-send", "SendTo fails: "+err.Error(), in, nil, nil)
+			return
+		}
+		if c.Guard("panic:conversation", in, func() {
+			for _, id := range roots {
+				if e := snd(mk(id)); e != nil && sendErr == nil {
+					sendErr = e
+				}
+			}
+			stop()
+		}) {
+			return
+		}
+		c.Count("conversation_messages", int64(next))
+		c.MaxOf("conversation_reply_depth", float64(maxDepth))
+		if sendErr != nil {
+			c.Violation("conversation-send", "a send from inside a listener callback fails: "+sendErr.Error(), in, nil, sendErr.Error())
+			return
+		}
+		if len(unknown) > 0 {
+			c.Violation("conversation-value", fmt.Sprintf("a message arrived that was never sent: % X", unknown[0]), in, nil, mon.HexList(unknown))
+			return
+		}
+		for id := 0; id < next; id++ {
+			if arrived[id] != 1 {
+				c.Violation("conversation-lost", fmt.Sprintf("message #%d (% X, reply depth %d) was sent through the loopback port from %s and arrived %d times (%d of %d messages arrived)", id, []byte(mk(id)), depth[id], map[bool]string{true: "outside the callback", false: "inside the listener callback"}[depth[id] == 0], arrived[id], len(arrived), next), in, 1, arrived[id])
+				return
+			}
+		}
+		if maxDepth >= 2 {
+			c.Count("conversations_with_replies_to_replies", 1)
+		}
+		c.DistinctBytes([]byte(fmt.Sprint("conv", children, nroots)))
 	})
 
 	c.Each("tune-realtime", 1, func(_ int64, _ *mon.Rand) {
